@@ -188,25 +188,25 @@ func (k Keeper) ValidateClaim(ctx sdk.Ctx, claim pc.MsgClaim) (err sdk.Error) {
 	}
 	// get the session node count for the time of the session
 	sessionNodeCount := int(k.SessionNodeCount(sessionContext))
-	// check cache
-	session, found := pc.GetSession(claim.SessionHeader, pc.GlobalSessionCache)
-	if !found {
-		// use the session end context to ensure that people who were jailed mid session do not get to submit claims
-		sessionEndCtx, er := ctx.PrevCtx(sessionEndHeight)
-		if er != nil {
-			return sdk.ErrInternal("could not get prev context: " + er.Error())
-		}
-		hash, er := sessionContext.BlockHash(k.Cdc, sessionContext.BlockHeight())
-		if er != nil {
-			return sdk.ErrInternal(er.Error())
-		}
-		// create a new session to validate
-		session, err = pc.NewSession(sessionContext, sessionEndCtx, k.posKeeper, claim.SessionHeader, hex.EncodeToString(hash), sessionNodeCount)
-		if err != nil {
-			ctx.Logger().
-				Error(fmt.Errorf("could not generate session with public key: %s, for chain: %s", app.GetPublicKey().RawString(), claim.SessionHeader.Chain).Error())
-			return err
-		}
+	// NOTE: the node-local session cache is deliberately not consulted here. It is filled by
+	// dispatch / relay handling with sessions filtered against whatever state was the latest
+	// when the request was served, so its content differs from node to node; claim validation is
+	// consensus and must be a function of chain data only.
+	// use the session end context to ensure that people who were jailed mid session do not get to submit claims
+	sessionEndCtx, er := ctx.PrevCtx(sessionEndHeight)
+	if er != nil {
+		return sdk.ErrInternal("could not get prev context: " + er.Error())
+	}
+	hash, er := sessionContext.BlockHash(k.Cdc, sessionContext.BlockHeight())
+	if er != nil {
+		return sdk.ErrInternal(er.Error())
+	}
+	// create a new session to validate
+	session, err := pc.NewSession(sessionContext, sessionEndCtx, k.posKeeper, claim.SessionHeader, hex.EncodeToString(hash), sessionNodeCount)
+	if err != nil {
+		ctx.Logger().
+			Error(fmt.Errorf("could not generate session with public key: %s, for chain: %s", app.GetPublicKey().RawString(), claim.SessionHeader.Chain).Error())
+		return err
 	}
 	// validate the session
 	err = session.Validate(claim.FromAddress, app, sessionNodeCount)
